@@ -420,3 +420,83 @@ theorem inv_after_rows {F : BodyFn} {P : Project} {g : G} (hwf : WF P g) (w : Wo
 
 end Engine
 end Pytask
+
+/-! ## The body leaves fresh products -/
+namespace Pytask
+namespace Engine
+
+theorem lookup_writeAll_other (c : Nat → Nat) (l : List (Nat × Nat)) (fs : FS) (q : Nat) (hq : ∀ pi ∈ l, pi.1 ≠ q) :
+    lookup (l.foldl (fun fs (pi : Nat × Nat) => if some pi.2 == (none : Option Nat) then fs else insert fs pi.1 (c pi.2)) fs) q
+      = lookup fs q := by
+  induction l generalizing fs with
+  | nil => rfl
+  | cons a l ih =>
+    simp only [List.foldl_cons]
+    rw [ih _ (fun pi h => hq pi (List.mem_cons_of_mem _ h))]
+    have : (some a.2 == (none : Option Nat)) = false := rfl
+    simp only [this, Bool.false_eq_true, if_false]
+    exact lookup_insert_ne _ _ _ _ (Ne.symm (hq a (by simp)))
+
+theorem lookup_writeAll_mem (c : Nat → Nat) (l : List (Nat × Nat)) (fs : FS) (hnd : (l.map (·.1)).Nodup)
+    (pi : Nat × Nat) (hpi : pi ∈ l) :
+    lookup (l.foldl (fun fs (pi : Nat × Nat) => if some pi.2 == (none : Option Nat) then fs else insert fs pi.1 (c pi.2)) fs) pi.1
+      = some (c pi.2) := by
+  induction l generalizing fs with
+  | nil => cases hpi
+  | cons a l ih =>
+    simp only [List.map_cons, List.nodup_cons] at hnd
+    simp only [List.foldl_cons]
+    have hf : (some a.2 == (none : Option Nat)) = false := rfl
+    rcases List.mem_cons.1 hpi with rfl | hin
+    · rw [lookup_writeAll_other c l _ pi.1 (fun q hq heq => hnd.1 (by rw [← heq]; exact List.mem_map_of_mem hq))]
+      simp only [hf, Bool.false_eq_true, if_false]
+      exact lookup_insert_self _ _ _
+    · exact ih _ hnd.2 hin
+
+theorem mem_prods_of_mem_zipIdx {l : List Nat} {pi : Nat × Nat} (h : pi ∈ l.zipIdx) : pi.1 ∈ l := by
+  have := List.mem_zipIdx h
+  simp at this
+  rw [this.2]
+  exact List.getElem_mem _
+
+theorem zipIdx_map_fst (l : List Nat) (k : Nat) : (l.zipIdx k).map (·.1) = l := by
+  induction l generalizing k with
+  | nil => rfl
+  | cons a l ih => simp [List.zipIdx_cons, ih]
+
+/-- After setup, body and teardown of `t` went through without an exception (`runPhases … = .none`), the products of `t`
+on disk are the body's function of the module and dependency contents on disk. -/
+theorem runPhases_none_fresh (F : BodyFn) (P : Project) (g : G) (cfg : Cfg) (s : Sess) (t : TaskSpec)
+    (hnd : t.prods.Nodup) (hdisj : ∀ p ∈ t.prods, p ∉ t.deps ∧ p ≠ t.src) (hon : ∀ k, t.beh ≠ .omits k)
+    (h : (runPhases F P g cfg s t).1 = .none) : Fresh F (runPhases F P g cfg s t).2.w t := by
+  unfold runPhases at h ⊢
+  cases hsc : setupChain P g cfg s t Generated.setupOrder <;> simp only [hsc] at h ⊢ <;> try (exact Raised.noConfusion h)
+  by_cases hdry : cfg.dry = true
+  · simp [hdry] at h
+  simp only [hdry, Bool.false_eq_true, if_false] at h ⊢
+  by_cases h1 : (runBody F t s.w.fs).2 = true
+  · simp [h1] at h
+  by_cases h2 : (t.prods.any fun p => (lookup (runBody F t s.w.fs).1 p).isNone) = true
+  · simp [h1, h2] at h
+  simp only [h1, h2, Bool.false_eq_true, if_false]
+  -- the body ran to completion with behaviour `ok`
+  unfold runBody at h1 ⊢
+  by_cases hd : ((t.deps.map (lookup s.w.fs)).any (·.isNone)) = true
+  · simp [hd] at h1
+  simp only [hd, Bool.false_eq_true, if_false] at h1 ⊢
+  cases hb : t.beh <;> simp only [hb] at h1 ⊢ <;> try (exact absurd trivial h1)
+  case omits k => exact absurd hb (hon k)
+  intro pi hpi
+  have hnd' : ((t.prods.zipIdx).map (·.1)).Nodup := by rw [zipIdx_map_fst]; exact hnd
+  simp only []
+  rw [lookup_writeAll_mem (fun i => F t.id i (lookup s.w.fs t.src) (t.deps.map (lookup s.w.fs))) _ _ hnd' pi hpi]
+  rw [lookup_writeAll_other (fun i => F t.id i (lookup s.w.fs t.src) (t.deps.map (lookup s.w.fs))) t.prods.zipIdx s.w.fs
+    t.src (fun q hq heq => (hdisj q.1 (mem_prods_of_mem_zipIdx hq)).2 heq)]
+  congr 2
+  apply List.map_congr_left
+  intro d hd'
+  rw [lookup_writeAll_other (fun i => F t.id i (lookup s.w.fs t.src) (t.deps.map (lookup s.w.fs))) t.prods.zipIdx s.w.fs
+    d (fun q hq heq => (hdisj q.1 (mem_prods_of_mem_zipIdx hq)).1 (heq ▸ hd'))]
+
+end Engine
+end Pytask
